@@ -9,7 +9,7 @@ name=$(basename $d)
 w=/var/tmp/jsv-seed-$name
 git -C /repo worktree remove --force $w 2>/dev/null; rm -rf $w
 git -C /repo worktree add -q --detach $w HEAD || exit 9
-git -C $w apply $d/patch.diff || { echo "$name: patch does not apply"; git -C /repo worktree remove --force $w; exit 8; }
+cp /repo/Cargo.lock $w/ 2>/dev/null; git -C $w apply $d/patch.diff || { echo "$name: patch does not apply"; git -C /repo worktree remove --force $w; exit 8; }
 for po in "$@"; do
   p=${po%%:*}; o=${po#*:}
   s=$(date +%s)
